@@ -58,6 +58,7 @@ fn sweep_spec(orig_sel: u8) -> ProgSpec {
         data: vec![0x1111; 8],
         strings: vec!["ab".into(), "c".into(), "".into()],
         raw_words: None,
+        fit: 0,
     }
 }
 
@@ -97,6 +98,9 @@ pub fn judge_case(c: &Case) -> Obs {
             return obs;
         }
     };
+    if let Some(l) = proggen::fit_label(&spec) {
+        obs.label(l);
+    }
     let mut cmds: Vec<Cmd> = Vec::new();
     if pre > 0 {
         cmds.push(Cmd::StepInto(Some(pre as u16)));
@@ -205,7 +209,7 @@ pub fn judge_case(c: &Case) -> Obs {
 }
 
 fn cases() -> impl Strategy<Value = Case> {
-    (proggen::prog_spec(10), prop_oneof![2 => Just(0u8), 1 => 1u8..30], prop::collection::vec(raw_cmd(), 1..12))
+    (proggen::prog_spec(10), crate::pick![2 => Just(0u8), 1 => 1u8..30], prop::collection::vec(raw_cmd(), 1..12))
         .prop_map(|(spec, pre_steps, cmds)| Case::History { spec, pre_steps, cmds })
 }
 
@@ -262,6 +266,9 @@ impl Prop for C13 {
         }
         let n = ctx.share(ctx.tier.pick(20_000, 200_000));
         drive(ctx, rep, "histories", cases(), n, &mut |c: &Case| judge_case(c));
+    }
+    fn fuzz_strategy(&self) -> Option<BoxedStrategy<Value>> {
+        Some(crate::fuzzmode::jv(cases()))
     }
     fn replay(&self, _ctx: &Ctx, case: &Value) -> Obs {
         match serde_json::from_value::<Case>(case.clone()) {
